@@ -31,7 +31,7 @@ ARMS = ("canonical", "other_key", "other_msg", "other_suite", "pop_confusion", "
 _REQ = [f"arm:{a}" for a in ARMS] + ["verdict:True", "verdict:False", "reached_pairing:False-verdict",
                                       "pop_confusion:sequence", "entry:PopVerify", "entry:Verify:basic", "entry:Verify:aug", "entry:Verify:pop",
                                       "bitflip:flag_bit", "canonical:coordinate_leading_byte=0x1a",
-                                      "canonical:coordinate_leading_byte=0x00", "derived:basic", "derived:aug", "derived:pop"]
+                                      "canonical:coordinate_leading_byte=0x00", "derived:basic", "derived:aug", "derived:pop", "threads:concurrent_verify"]
 REQUIRED_LABELS = {"quick": _REQ, "thorough": _REQ}
 
 
@@ -181,7 +181,60 @@ def o_derived(ctx, case):
     ctx.sample(case, f"derived:{suite}")
 
 
-ORACLES = {"verify": o_verify, "derived": o_derived}
+def o_threads(ctx, case):
+    """The verdicts do not depend on what other threads are verifying at the same moment: three threads call
+    Verify at once - the canonical signature, the canonical signature of another suite's key/message, and the
+    negated signature - with a short switch interval, twice over."""
+    import sys
+    import threading
+    sk, msg = case["sk"], unhx(case["msg"])
+    ctx.begin("threads", case)
+    pk = blssig.sk_to_pk(sk)
+    jobs = []
+    for suite in sc.SUITES:
+        S = sc.lib_suite(suite)
+        canon = canonical(suite, "Verify", sk, msg)
+        neg = B.signature_bytes(BLS.neg("G2", B.signature_point(canon)))
+        jobs.append((f"{S.__name__}.Verify(canonical)", lambda S=S, c=canon: S.Verify(pk, msg, c), True))
+        jobs.append((f"{S.__name__}.Verify(negated)", lambda S=S, c=neg: S.Verify(pk, msg, c), False))
+    P_ = sc.lib_suite("pop")
+    jobs.append(("PopVerify(canonical proof)", lambda: P_.PopVerify(pk, blssig.pop_prove(sk)), True))
+    jobs = jobs[case.get("rot", 0) % len(jobs):] + jobs[:case.get("rot", 0) % len(jobs)]
+    jobs = jobs[:case.get("threads", 3) * 2]
+    out, lock = [], threading.Lock()
+
+    def worker(name, fn, exp):
+        try:
+            got = fn()
+        except Exception as e:  # noqa
+            got = f"raised {type(e).__name__}"
+        with lock:
+            out.append((name, got, exp))
+    old = sys.getswitchinterval()
+    sys.setswitchinterval(1e-5)
+    try:
+        for half in (jobs[:len(jobs) // 2], jobs[len(jobs) // 2:]):
+            ths = [threading.Thread(target=worker, args=j) for j in half]
+            for th in ths:
+                th.start()
+            for th in ths:
+                th.join()
+    finally:
+        sys.setswitchinterval(old)
+    for name, got, exp in out:
+        ctx.check(got is exp, "threads", "concurrent_verdict", case,
+                  f"{name} = {got!r} while other threads were verifying, expected {exp}")
+    ctx.label("threads:concurrent_verify", len(out))
+    ctx.nontrivial(("t", sk, case["msg"], case.get("rot", 0)))
+    ctx.sample(case, "threads")
+
+
+def t_threads(ctx, n):
+    for i in range(n):
+        o_threads(ctx, {"sk": 1234567 + 17 * i + ctx.seed, "msg": hx(b"concurrent-%d" % i), "rot": 2 * i, "threads": 3})
+
+
+ORACLES = {"verify": o_verify, "derived": o_derived, "threads": o_threads}
 
 FLAG_BITS = (767, 766, 765, 383, 382, 381)
 PINNED_BITS = FLAG_BITS + (0, 7, 380, 384, 391, 760, 764)
@@ -378,6 +431,7 @@ def tasks(tier):
     ns = 16
     out = [Task(f"verify-{s}", "t_verify", shard=s, nshards=ns, n=36 if q else 1200) for s in range(ns)]
     out += [Task(f"derived-{s}", "t_derived", shard=s, n=2 if q else 60) for s in range(3)]
+    out.append(Task("threads", "t_threads", n=2 if q else 40))
     if not q:
         for i, suite in enumerate(sc.SUITES):
             for lo in range(0, 768, 96):
